@@ -69,7 +69,12 @@ KeyClause(q, o) ==
          i |-> b]
 
 Step(q) ==
-   IF q.outcome = "raised" THEN
+   \* the OUTCOME CLASS is part of the result: an isotherm the analysis refuses as stored (its pressure cannot be read
+   \* as p/p0 ...) must be refused in every representation, not answered in the units it happens to be stored in
+   IF q.base_outcome = "raised" THEN
+        IF q.outcome = "raised" THEN [ok |-> TRUE, bad |-> <<>>]
+        ELSE [ok |-> FALSE, bad |-> <<[key |-> "*", c |-> "answered_in_this_representation_but_refused_as_stored", i |-> 0]>>]
+   ELSE IF q.outcome = "raised" THEN
         \* the variant run failed although the base run returned
         [ok |-> FALSE, bad |-> <<[key |-> "*", c |-> IF q.cls = "guard:different_basis" THEN "not_judged_deliberate_guard" ELSE "refused_after_change_of_representation", i |-> 0]>>]
    ELSE LET cl == [j \in 1..Len(q.obs) |-> [key |-> q.obs[j].key] @@ KeyClause(q, q.obs[j])]
